@@ -523,9 +523,9 @@ class SerializationSchemaBuilder(
             for field in fields
             if not field.is_aggregate
             for required in [
-                field.required
-                if is_typed_dict(get_origin_or_type(tp))
-                else not field.skippable(
+                # a required key of a TypedDict can be omitted too (Undefined, None)
+                (field.required or not is_typed_dict(get_origin_or_type(tp)))
+                and not field.skippable(
                     settings.serialization.exclude_defaults,
                     settings.serialization.exclude_none,
                 )
